@@ -430,7 +430,11 @@ func VerifC15MinMax() {
 	var nodes []*CandidateNode
 	for i := 0; i < n; i++ {
 		var c *CandidateNode
-		if strs {
+		if verifChoice("null"+verifItoa(int64(i)), 2) == 1 {
+			// a null among the elements, at any position: it comes before everything else, as in sort
+			c = &CandidateNode{Kind: ScalarNode, Tag: "!!null", Value: "null"}
+			seq.Content = append(seq.Content, vNull())
+		} else if strs {
 			c = &CandidateNode{Kind: ScalarNode, Tag: "!!str", Value: verifStr("s"+verifItoa(int64(i)), L, "")}
 			seq.Content = append(seq.Content, vStr(c.Value))
 		} else {
@@ -453,7 +457,7 @@ func VerifC15MinMax() {
 	r := res.Front().Value.(*CandidateNode)
 	isElement := false
 	for _, c := range nodes {
-		isElement = verifOr(isElement, verifEqStr(c.Value, r.Value))
+		isElement = verifOr(isElement, verifAnd(c.Tag == r.Tag, verifEqStr(c.Value, r.Value)))
 		cmp := sortableNodeArray(nil).compare(r, c, vRFC3339)
 		if wantMax {
 			verifAssert(cmp >= 0, "C15/max-is-exceeded-by-an-element")
